@@ -201,12 +201,68 @@ def eval_classspec(case):
     return None
 
 
+def eval_users(case):
+    """alsoProvides / noLongerProvides / directlyProvidedBy are users of + and -:
+    noLongerProvides(ob, X) leaves directlyProvidedBy(ob) - X (X *and whatever
+    extends X* is gone) and raises ValueError exactly when the class still
+    provides X; alsoProvides(ob, X) adds X without disturbing the
+    others (it re-declares rather than using +, so where X lands is not
+    constrained)."""
+    da, direct, x = case
+    I = mkifaces()
+    A = type('A', (), {})
+    if da:
+        classImplements(A, *[I[n] for n in da])
+    eA = dedupe(da)
+    cls_implies = lambda n: any(ext(y, n) for y in eA)
+    # --- noLongerProvides
+    b = A()
+    directlyProvides(b, *[I[n] for n in direct])
+    before = nm(directlyProvidedBy(b))
+    if set(before) != {n for n in direct if not cls_implies(n)}:
+        return ('directlyProvidedBy', da, direct, before)
+    exp_after = [n for n in before if not ext(n, x)]
+    try:
+        noLongerProvides(b, I[x])
+        raised = False
+    except ValueError:
+        raised = True
+    if raised != cls_implies(x):
+        return ('noLongerProvides-raises', da, direct, x, raised, cls_implies(x))
+    after = nm(directlyProvidedBy(b))
+    if after != exp_after:
+        return ('noLongerProvides-result', da, direct, x, after, exp_after)
+    for n in NAMES:
+        want = cls_implies(n) or any(ext(y, n) for y in exp_after)
+        if I[n].providedBy(b) != want:
+            return ('noLongerProvides-providedBy', da, direct, x, n, want)
+    # --- alsoProvides
+    c = A()
+    directlyProvides(c, *[I[n] for n in direct])
+    before = nm(directlyProvidedBy(c))
+    alsoProvides(c, I[x])
+    after = nm(directlyProvidedBy(c))
+    new = [] if (x in before or cls_implies(x)) else [x]
+    if set(after) != set(before) | set(new) or len(after) != len(set(after)):
+        return ('alsoProvides-set', da, direct, x, after)
+    if [n for n in after if n in before] != before:
+        return ('alsoProvides-order', da, direct, x, after, before)
+    if not I[x].providedBy(c):
+        return ('alsoProvides-providedBy', da, direct, x)
+    return None
+
+
+def _kinds():
+    return {'construct': eval_construct, 'pair': eval_pair,
+            'classspec': eval_classspec, 'users': eval_users}
+
+
 def evaluate(arg):
     viol = []
     n = 0
     for kind, case in arg:
         n += 1
-        v = {'construct': eval_construct, 'pair': eval_pair, 'classspec': eval_classspec}[kind](case)
+        v = _kinds()[kind](case)
         if v:
             viol.append(dict(sig='C20:%s:%s' % (kind, v[0]), case=dict(kind=kind, case=case),
                              detail=dict(case=case, violation=v)))
@@ -222,7 +278,7 @@ def _t(x):
 
 def replay(case):
     c = _t(case['case'])
-    v = {'construct': eval_construct, 'pair': eval_pair, 'classspec': eval_classspec}[case['kind']](c)
+    v = _kinds()[case['kind']](c)
     return dict(violation=v) if v else None
 
 
@@ -238,6 +294,9 @@ def run(ctx):
     two = [a for a in arglists if len(a) <= 2]
     cases += [('classspec', (da, db, only, direct)) for da in two for db in two
               for only in (False, True) for direct in [(), ('I1',), ('J', 'I3'), ('I0',)]]
+    one = [a for a in arglists if len(a) <= 1]
+    cases += [('users', (da, direct, x)) for da in one
+              for direct in arglists if len(direct) <= (2 if quick else 3) for x in NAMES]
     for impl in ('c', 'py'):
         res = ctx.map(impl, 'evaluate', chunks(cases, 500))
         for r in res:
@@ -250,7 +309,8 @@ def run(ctx):
     ctx.count['distinct_nontrivial'] = len(cases)
     ctx.info['constructions'] = len(arglists)
     ctx.sample(dict(pair=cases[len(arglists) + 777][1]))
-    ctx.sample(dict(classspec=cases[-9][1], fields='(declared on A, declared on B(A), only-form?, directly provided)'))
+    ctx.sample(dict(users=cases[-9][1], fields='(declared on the class, directly provided, interface passed to noLongerProvides / alsoProvides)'))
+    ctx.sample(dict(classspec=[c for c in cases if c[0] == 'classspec'][-9][1], fields='(declared on A, declared on B(A), only-form?, directly provided)'))
     ctx.assumptions += ['the relative order among B\'s own new interfaces in A + B is not constrained (the property does not state it); a new interface that extends only another new interface may be placed in front']
     return finish(
         ctx, 'model_checking',
